@@ -19,7 +19,7 @@ hold for every interpretation, i.e. for whatever the hardware does, because the 
 arguments in the same order.  Loops are bounded by `fuel` iterations per loop (`none` = stuck or out of fuel).
 -/
 namespace RsslVerif.Spec.Sem
-open RsslVerif.Gen.HlslGenTables RsslVerif.Model
+open RsslVerif.Gen.HlslGenTables RsslVerif.Gen.HlslIntrinsicTables RsslVerif.Model
 open RsslVerif.Model.Ir (Ty Var Const)
 
 /-! ## values and primitives -/
@@ -61,6 +61,8 @@ structure Prim where
   f2u : BitVec 32 → BitVec 32
   f2b : BitVec 32 → Bool
   d2f : BitVec 64 → BitVec 32
+  /-- the pure math / bit intrinsics, applied at operand type `t` (uninterpreted, shared by both semantics) -/
+  intr : Intrinsic → Ty → List Val → Option Val
 
 def intArith (P : Prim) (signed : Bool) (m : MBin) (a b : BitVec 32) : BitVec 32 :=
   match m with
@@ -340,6 +342,13 @@ def eval (W : World) : Expr → Store → R Val
         match W.phi f (vals.map (·.1)) σ1 with
         | none => none
         | some (ret, finals, σ2) => some (ret, writeBack (vals.map (·.2)) finals σ2)
+  | .intr i T _ args, σ =>
+    match evalAll W args σ with
+    | none => none
+    | some (vals, σ1) =>
+      match W.P.intr i T vals with
+      | none => none
+      | some r => some (r, σ1)
   | .op o args, σ =>
     match args with
     | .cons a .nil =>
@@ -427,6 +436,16 @@ def evalArgs (W : World) : Exprs → List (Dir × Ty) → Store → Option (List
         match evalArgs W r ps σ with
         | none => none
         | some (l, σ2) => some ((σ x, some x) :: l, σ2)
+/-- the arguments of an intrinsic, left to right -/
+def evalAll (W : World) : Exprs → Store → Option (List Val × Store)
+  | .nil, σ => some ([], σ)
+  | .cons e r, σ =>
+    match eval W e σ with
+    | none => none
+    | some (v, σ1) =>
+      match evalAll W r σ1 with
+      | none => none
+      | some (l, σ2) => some (v :: l, σ2)
 /-- `Sequence`: every element in order, the value of the last -/
 def evalSeq (W : World) : Exprs → Store → R Val
   | .nil, _ => none
@@ -491,6 +510,40 @@ def common (a b : Ty) : Option Ty :=
   | .bool, .lit | .lit, .bool => some .int
   | _, _ => none
 
+/-- the HLSL built-in function a name denotes (pure scalar math / bit functions of the modelled subset); a user
+function of the same name would shadow it (`Env.fres`) -/
+def builtins : List (String × Intrinsic) :=
+  [("abs", .Abs), ("acos", .Acos), ("asin", .Asin), ("atan", .Atan), ("atan2", .Atan2),
+   ("cos", .Cos), ("cosh", .Cosh), ("sin", .Sin), ("sinh", .Sinh), ("tan", .Tan),
+   ("tanh", .Tanh), ("sqrt", .Sqrt), ("rsqrt", .RcpSqrt), ("pow", .Pow), ("exp", .Exp),
+   ("exp2", .Exp2), ("log", .Log), ("log2", .Log2), ("log10", .Log10), ("floor", .Floor),
+   ("ceil", .Ceil), ("trunc", .Trunc), ("round", .Round), ("frac", .Frac), ("fmod", .Fmod),
+   ("rcp", .Rcp), ("saturate", .Saturate), ("sign", .Sign), ("min", .Min), ("max", .Max),
+   ("step", .Step), ("clamp", .Clamp), ("lerp", .Lerp), ("smoothstep", .SmoothStep), ("isnan", .IsNaN),
+   ("isinf", .IsInfinite), ("isfinite", .IsFinite), ("asint", .AsInt), ("asuint", .AsUInt), ("asfloat", .AsFloat),
+   ("countbits", .CountBits), ("reversebits", .ReverseBits), ("firstbithigh", .FirstBitHigh), ("firstbitlow", .FirstBitLow), ("f16tof32", .F16ToF32),
+   ("f32tof16", .F32ToF16)]
+
+def hlslBuiltin (n : String) : Option Intrinsic := (builtins.find? (fun p => p.1 == n)).map (·.2)
+
+/-- the intrinsics this table gives a meaning to -/
+def modelledBuiltin (i : Intrinsic) : Bool := builtins.any (fun p => p.2 == i)
+
+/-- a built-in whose arguments are all literals is resolved at `int` / `float` -/
+def promoteArg : Ty → Ty
+  | .lit => .int
+  | .flit => .float
+  | t => t
+
+/-- result type of a built-in applied at operand type `t` (HLSL's scalar signatures) -/
+def builtinRet (i : Intrinsic) (t : Ty) : Ty :=
+  match i with
+  | .IsNaN | .IsInfinite | .IsFinite => .bool
+  | .Sign | .AsInt => .int
+  | .AsUInt | .F32ToF16 | .CountBits | .FirstBitHigh | .FirstBitLow => .uint
+  | .AsFloat | .F16ToF32 => .float
+  | _ => t
+
 /-- implicit conversion from static type `from_` to `to` -/
 def convert (P : Prim) (from_ to : Ty) (v : Val) : Option Val :=
   if from_ = to then some v else castVal P to v
@@ -507,6 +560,7 @@ def lvalOf (env : Env) : Expr → Option Var
   | .ident s => env.res s
   | _ => none
 
+mutual
 /-- static type of an expression (C rules) -/
 def typeOf (sig : Sig) (env : Env) : Expr → Option Ty
   | .lit l => some (litTy l)
@@ -537,13 +591,34 @@ def typeOf (sig : Sig) (env : Env) : Expr → Option Ty
     match typeOf sig env e with
     | none => none
     | some _ => tyOfName n
-  | .call n _ =>
+  | .call n args =>
     match env.fres n with
-    | none => none
     | some f =>
       match sig f with
       | none => none
       | some (rt, _) => some rt
+    | none =>
+      -- not a user function: a built-in, applied at the common type of its arguments
+      match hlslBuiltin n with
+      | none => none
+      | some i =>
+        match argsType sig env args with
+        | none => none
+        | some t => some (builtinRet i (promoteArg t))
+/-- the common type of the arguments of a built-in (usual arithmetic conversions, a literal adapts) -/
+def argsType (sig : Sig) (env : Env) : Exprs → Option Ty
+  | .nil => none
+  | .cons a r =>
+    match typeOf sig env a with
+    | none => none
+    | some ta =>
+      match r with
+      | .nil => some ta
+      | .cons _ _ =>
+        match argsType sig env r with
+        | none => none
+        | some tr => common ta tr
+end
 
 mutual
 /-- big-step evaluation of an expression of the emitted syntax -/
@@ -570,7 +645,6 @@ def eval (W : World) (env : Env) : Expr → Store → R Val
     | _, _, _ => none
   | .call n args, σ =>
     match env.fres n with
-    | none => none
     | some f =>
       match W.sig f with
       | none => none
@@ -581,6 +655,19 @@ def eval (W : World) (env : Env) : Expr → Store → R Val
           match W.phi f (vals.map (·.1)) σ1 with
           | none => none
           | some (ret, finals, σ2) => some (ret, writeBack (vals.map (·.2)) finals σ2)
+    | none =>
+      match hlslBuiltin n with
+      | none => none
+      | some i =>
+        match argsType W.sig env args with
+        | none => none
+        | some t =>
+          match evalAllT W env (promoteArg t) args σ with
+          | none => none
+          | some (vals, σ1) =>
+            match W.P.intr i (promoteArg t) vals with
+            | none => none
+            | some r => some (r, σ1)
   | .un op e, σ =>
     match astUnSem op with
     | .un m =>
@@ -675,6 +762,19 @@ def eval (W : World) (env : Env) : Expr → Store → R Val
         | none => none
         | some (_, σ1) => eval W env b σ1
     | _ => none
+/-- the arguments of a built-in, left to right, each converted to the common type `t` -/
+def evalAllT (W : World) (env : Env) (t : Ty) : Exprs → Store → Option (List Val × Store)
+  | .nil, σ => some ([], σ)
+  | .cons e r, σ =>
+    match typeOf W.sig env e with
+    | none => none
+    | some te =>
+      match convR W.P te t (eval W env e σ) with
+      | none => none
+      | some (v, σ1) =>
+        match evalAllT W env t r σ1 with
+        | none => none
+        | some (l, σ2) => some (v :: l, σ2)
 /-- arguments left to right; an `in` argument is converted to the parameter type, `out`/`inout` need an lvalue -/
 def evalArgs (W : World) (env : Env) : Exprs → List (Ir.Dir × Ty) → Store → Option (List (Val × Option Var) × Store)
   | .nil, [], σ => some ([], σ)
